@@ -37,7 +37,9 @@ use vq_util::{json, mix, prf_check, prf_fill, Rng, Summary, Value, Violation};
 
 const IDLE_TIMEOUT: Duration = Duration::from_secs(30);
 const VANISH_SLACK: Duration = Duration::from_secs(5);
-const LIVE_DEADLINE: Duration = Duration::from_secs(600);
+const LIVE_DEADLINE: Duration = Duration::from_secs(180);
+/// wall-clock budget for one simulated scenario (cooperative: checked from the packet monitor)
+const WALL_BUDGET_TAG: &str = "VQ_WALL_BUDGET";
 
 // ---------------------------------------------------------------------------------------
 // scenario description (fully serialisable: a replay file carries the whole scenario)
@@ -403,7 +405,11 @@ pub fn gen_tcp_scenario(seed: u64, case: u64) -> Scenario {
         server.pause_us = server.pause_us.min(300);
         server.write_after_read = rng.chance(1, 2);
         if class == "tcp_early_drop" && rng.chance(1, 2) && server.write_len > 0 {
-            client.read_stop_at = Some(rng.below(server.write_len));
+            // Time is real here: a writer whose peer stopped reading blocks on TCP flow control
+            // until the 30 s idle timeout. Keep the unread remainder small enough for the
+            // socket buffers so the scenario stays fast (the long variant runs in the simulator).
+            let lo = server.write_len.saturating_sub(16_000);
+            client.read_stop_at = Some(rng.range(lo, server.write_len - 1));
         }
         streams.push(StreamSpec { start_us: 0, client, server });
     }
@@ -445,12 +451,14 @@ pub struct NetCtl {
     index: u64,
     last_delivery_us: BTreeMap<SocketAddr, u64>,
     pub stats: NetStats,
+    wall_start: std::time::Instant,
+    wall_budget: Duration,
 }
 
 impl NetCtl {
-    fn new(spec: NetSpec) -> Self {
+    fn new(spec: NetSpec, wall_budget: Duration) -> Self {
         let rng = Rng::new(spec.net_seed);
-        NetCtl { spec, rng, server_ip: None, blackhole: false, server_mute: false, index: 0, last_delivery_us: BTreeMap::new(), stats: NetStats::default() }
+        NetCtl { spec, rng, server_ip: None, blackhole: false, server_mute: false, index: 0, last_delivery_us: BTreeMap::new(), stats: NetStats::default(), wall_start: std::time::Instant::now(), wall_budget }
     }
 
     /// monitor decision for one sent packet
@@ -458,6 +466,16 @@ impl NetCtl {
         let idx = self.index;
         self.index += 1;
         self.stats.sent += 1;
+        if idx % 512 == 0 && self.wall_start.elapsed() > self.wall_budget {
+            // cooperative abort of a simulation that burns wall-clock time (caught by the
+            // scenario runner and reported as inconclusive, never as a violation)
+            panic!(
+                "{WALL_BUDGET_TAG}: wall budget of {} s exhausted at virtual {} ms after {} packets",
+                self.wall_budget.as_secs(),
+                now_us() / 1000,
+                self.stats.sent
+            );
+        }
         self.stats.bytes += p.transport.payload().len() as u64;
         if self.blackhole || (self.server_mute && Some(p.source().ip()) == self.server_ip) {
             self.stats.dropped_vanish += 1;
@@ -847,7 +865,7 @@ fn judge(sc: &Scenario, o: &Oracle, hanging: Vec<String>, vanish_t0_us: Option<u
             what: format!(
                 "operations still pending at {} ms ({}): {ops:?}",
                 end_us / 1000,
-                match vanish_t0_us { Some(t0) => format!("peer vanished at {} ms; deadline = t0 + idle timeout 30 s + 5 s", t0 / 1000), None => "no peer failure injected; deadline 600 s".into() }
+                match vanish_t0_us { Some(t0) => format!("peer vanished at {} ms; deadline = t0 + idle timeout 30 s + 5 s", t0 / 1000), None => "no peer failure injected; deadline 180 s".into() }
             ),
         });
     }
@@ -975,8 +993,8 @@ fn mtu_bucket(m: Option<u16>) -> &'static str {
 // simulator run (UDP)
 // ---------------------------------------------------------------------------------------
 
-pub fn run_sim(sc: &Scenario) -> Outcome {
-    let ctl: SharedNet = Arc::new(Mutex::new(NetCtl::new(sc.net.clone())));
+pub fn run_sim(sc: &Scenario, wall_budget: Duration) -> Outcome {
+    let ctl: SharedNet = Arc::new(Mutex::new(NetCtl::new(sc.net.clone(), wall_budget)));
     let oracle: SharedOracle = Arc::new(Mutex::new(Oracle::default()));
     {
         let mut o = oracle.lock().unwrap();
@@ -1351,9 +1369,17 @@ pub fn run_tcp(sc: &Scenario) -> Outcome {
     rt.shutdown_background();
     let end_us = started.elapsed().as_micros() as u64;
     let o = oracle.lock().unwrap();
-    let hanging: Vec<String> = if timed_out { o.pending.values().map(|(w, since)| format!("{w} (pending since {} ms)", since / 1000)).collect::<Vec<_>>() } else { Vec::new() };
-    let hanging = if timed_out && hanging.is_empty() { vec!["unknown (join pending)".to_string()] } else { hanging };
-    judge(sc, &o, hanging, None, end_us, NetStats::default())
+    let hanging: Vec<String> = if timed_out {
+        o.pending.values().map(|(w, since)| format!("{w} (pending since {} ms)", since / 1000)).collect::<Vec<_>>()
+    } else {
+        Vec::new()
+    };
+    let no_op_pending = timed_out && hanging.is_empty();
+    let mut out = judge(sc, &o, hanging, None, end_us, NetStats::default());
+    if no_op_pending {
+        out.harness_problem = Some("tcp scenario exceeded its real-time budget although no stream operation was pending".into());
+    }
+    out
 }
 
 // ---------------------------------------------------------------------------------------
@@ -1406,18 +1432,45 @@ fn account(sum: &mut Summary, sc: &Scenario, out: &Outcome, seed: u64, case: u64
         if !seen.insert(f.sig.clone()) {
             continue;
         }
-        sum.violation(Violation {
+        known::push_violation(sum, Violation {
             property: "C20".into(),
             signature: f.sig.clone(),
             what: f.what.clone(),
             replay: json!({"check":"c20","seed":seed,"case":case,"scenario":scenario_json(sc)}),
-        });
+        }, 3);
     }
 }
 
+static WALL_BUDGET_MS: std::sync::atomic::AtomicU64 = std::sync::atomic::AtomicU64::new(120_000);
+
+/// run one scenario on its own thread (fresh thread-locals for bach and for the crate's
+/// simulated-server registry, and a panic cannot poison the next scenario)
 fn run_one(sc: &Scenario) -> Result<Outcome, String> {
     let sc = sc.clone();
-    std::panic::catch_unwind(move || if sc.transport == "tcp" { run_tcp(&sc) } else { run_sim(&sc) }).map_err(known::panic_text)
+    let budget = Duration::from_millis(WALL_BUDGET_MS.load(std::sync::atomic::Ordering::Relaxed));
+    let h = std::thread::Builder::new()
+        .name("vq-dc-scenario".into())
+        .stack_size(32 << 20)
+        .spawn(move || if sc.transport == "tcp" { run_tcp(&sc) } else { run_sim(&sc, budget) })
+        .map_err(|e| format!("cannot spawn scenario thread: {e}"))?;
+    h.join().map_err(known::panic_text)
+}
+
+/// a scenario that did not return an outcome: library panic (violation) or wall budget (inconclusive)
+fn account_failure(sum: &mut Summary, sc: &Scenario, msg: String, seed: u64, case: u64) {
+    sum.evaluations += 1;
+    sum.count(&format!("{}_scenarios_aborted", sc.transport), 1);
+    if msg.contains(WALL_BUDGET_TAG) {
+        sum.count("scenarios_over_wall_budget", 1);
+        sum.inconclusive.push(format!("c20: {msg} (seed {seed} case {case} class {}); replay with --replay on {}", sc.class, scenario_json(sc)));
+        return;
+    }
+    known::push_violation(sum, Violation {
+        property: "C20".into(),
+        signature: format!("c20:{}:panic:{}", sc.transport, known::panic_sig(&msg)),
+        what: format!("panic inside the stream scenario: {msg}"),
+        replay: json!({"check":"c20","seed":seed,"case":case,"scenario":scenario_json(sc)}),
+    }, 3);
 }
 
 /// Fault enumeration for small flows: run the flow once without loss to learn how many
@@ -1426,7 +1479,7 @@ fn kth_enumeration(seed: u64, start: u64, flows: u64, verbose: bool, sum: &mut S
     const MAX_K: u64 = 96;
     for f in start..start + flows {
         let mut rng = Rng::new(mix(seed, 0x2200_0000 + f));
-        let mut half = |rng: &mut Rng| HalfPlan {
+        let half = |rng: &mut Rng| HalfPlan {
             write_len: *rng.pick(&[0u64, 1, 700, 3000, 9000, 20_000, 40_000]),
             write_chunk: *rng.pick(&[1000usize, 4000, 65_536]),
             finish: if rng.chance(2, 3) { Finish::Shutdown } else { Finish::Drop },
@@ -1451,11 +1504,14 @@ fn kth_enumeration(seed: u64, start: u64, flows: u64, verbose: bool, sum: &mut S
             vanish_at_us: 0,
             key: rng.next(),
         };
-        let Ok(clean) = run_one(&base) else {
-            sum.inconclusive.push(format!("c20: kth enumeration flow {f}: baseline run panicked"));
-            continue;
-        };
         let case_id = 1_000_000 + f * 1000;
+        let clean = match run_one(&base) {
+            Ok(c) => c,
+            Err(msg) => {
+                account_failure(sum, &base, msg, seed, case_id);
+                continue;
+            }
+        };
         account(sum, &base, &clean, seed, case_id);
         let n = clean.net.sent;
         sum.count("kth_flows", 1);
@@ -1475,12 +1531,7 @@ fn kth_enumeration(seed: u64, start: u64, flows: u64, verbose: bool, sum: &mut S
                     sum.max("kth_recovery_virtual_ms_max", out.virtual_ms as i64);
                     account(sum, &sc, &out, seed, case_id + 1 + k);
                 }
-                Err(msg) => sum.violation(Violation {
-                    property: "C20".into(),
-                    signature: format!("c20:udp:panic:{}", known::panic_sig(&msg)),
-                    what: format!("panic inside the simulated stream scenario: {msg}"),
-                    replay: json!({"check":"c20","seed":seed,"case":case_id + 1 + k,"scenario":scenario_json(&sc)}),
-                }),
+                Err(msg) => account_failure(sum, &sc, msg, seed, case_id + 1 + k),
             }
         }
     }
@@ -1494,6 +1545,7 @@ pub fn run(args: &BTreeMap<String, String>, sum: &mut Summary) {
     let start = vq_util::arg_u64(args, "start", 0);
     let only = args.get("class").cloned();
     let verbose = args.contains_key("verbose");
+    WALL_BUDGET_MS.store(vq_util::arg_u64(args, "scenario-wall-ms", 120_000), std::sync::atomic::Ordering::Relaxed);
     let kth_flows = vq_util::arg_u64(args, "kth-flows", if only.is_none() { (iters / 25).max(1) } else { 0 });
     if (transport == "udp" || transport == "both") && kth_flows > 0 {
         kth_enumeration(seed, start, kth_flows, verbose, sum);
@@ -1509,12 +1561,7 @@ pub fn run(args: &BTreeMap<String, String>, sum: &mut Summary) {
                     }
                     account(sum, &sc, &out, seed, case);
                 }
-                Err(msg) => sum.violation(Violation {
-                    property: "C20".into(),
-                    signature: format!("c20:udp:panic:{}", known::panic_sig(&msg)),
-                    what: format!("panic inside the simulated stream scenario: {msg}"),
-                    replay: json!({"check":"c20","seed":seed,"case":case,"scenario":scenario_json(&sc)}),
-                }),
+                Err(msg) => account_failure(sum, &sc, msg, seed, case),
             }
         }
     }
@@ -1523,12 +1570,7 @@ pub fn run(args: &BTreeMap<String, String>, sum: &mut Summary) {
             let sc = gen_tcp_scenario(seed, case);
             match run_one(&sc) {
                 Ok(out) => account(sum, &sc, &out, seed, case),
-                Err(msg) => sum.violation(Violation {
-                    property: "C20".into(),
-                    signature: format!("c20:tcp:panic:{}", known::panic_sig(&msg)),
-                    what: format!("panic inside the tcp stream scenario: {msg}"),
-                    replay: json!({"check":"c20","seed":seed,"case":case,"scenario":scenario_json(&sc)}),
-                }),
+                Err(msg) => account_failure(sum, &sc, msg, seed, case),
             }
         }
     }
@@ -1551,11 +1593,6 @@ pub fn replay(r: &Value, sum: &mut Summary) {
             }
             account(sum, &sc, &out, r["seed"].as_u64().unwrap_or(0), r["case"].as_u64().unwrap_or(0));
         }
-        Err(msg) => sum.violation(Violation {
-            property: "C20".into(),
-            signature: format!("c20:{}:panic:{}", sc.transport, known::panic_sig(&msg)),
-            what: msg,
-            replay: r.clone(),
-        }),
+        Err(msg) => account_failure(sum, &sc, msg, r["seed"].as_u64().unwrap_or(0), r["case"].as_u64().unwrap_or(0)),
     }
 }
